@@ -128,7 +128,9 @@ def no_failure_after_canonical(ctx, prog, rid, names):
             bad7 = []
             for e_ in sorted(r7 & errs7):
                 ce = controlling_edge(f, e_, o7)
-                if name == 'TieredEngine::insert' and ce and re.match(r'^variant\(HnswBackend::current_coherence_token\(.*\)\) = (None|Break)$', ce[2]):
+                # the exit is recognised by what controls it — the None-ness of current_coherence_token's result — whatever form tests it: `.ok_or_else(..)?`
+                # (= Break), `match … { None => … }` (= None), `let Some(..) = … else { return Err(..) }` (otherwise edge: ∉ {Some})
+                if name == 'TieredEngine::insert' and ce and re.match(r'^variant\(HnswBackend::current_coherence_token\(.*\)\) (= (None|Break)|∉ \{(Some|Continue)\})$', ce[2]):
                     ctx.exception(rid, 'TieredEngine::insert: no canonical token after a successful insert',
                                   'only a concurrent delete of the same id can remove the token between the two calls; the final state then equals "insert failed, delete succeeded"')
                     continue
@@ -233,6 +235,94 @@ def rejection_classes(ctx, prog, rid, eff):
             r = flow.render(oi.of_operand(c[0].args[1])) if c else '?'
             ctx.inst(rid, ins.short, 'class IDCAST vacuous: id is a length', 'Vec' in r and 'len' in r, 'add_vector id argument: %s' % r)
 
+
+
+def writer_handlers(ctx, prog, rid):
+    """Provenance of WalWriter.error_handler (C03.R9): the field is set where the struct is built; a value that is a parameter of the building function is followed to
+    every caller's argument (constructors that pass it on). Each site where the value is decided must decide `Some(..)`; a function that decides anything else and
+    returns the writer is a handler-less constructor, which is tolerated only while nobody calls it."""
+    from kvstatic.facts import strip_generics
+    FIELD = 'persistence::WalWriter.error_handler'
+
+    def on_field(pl):
+        return any(isinstance(x, str) and x.endswith(FIELD) for x in (pl.get('p') or []))
+
+    aggs, late = [], []
+    for b in prog.bodies.values():
+        for i, blk in enumerate(b.blocks):
+            for st in blk['s']:
+                rv = st.get('rv')
+                if not rv:
+                    continue
+                if rv['k'] == 'agg' and rv.get('ak') == 'adt' and rv.get('adt', '').endswith('persistence::WalWriter') and 'error_handler' in (rv.get('fields') or []):
+                    aggs.append((b, i, rv['ops'][rv['fields'].index('error_handler')]))
+                if on_field(st['pl']):
+                    late.append('%s assigns it at %s' % (b.short, st.get('loc', '?')))
+                if rv['k'] in ('ref', 'rawptr') and rv.get('mut') is not False and on_field(rv['pl']):
+                    late.append('%s borrows it mutably at %s' % (b.short, st.get('loc', '?')))
+            t = blk['t']
+            if t['k'] == 'call' and t.get('dest') and on_field(t['dest']):
+                late.append('%s assigns it at %s' % (b.short, t.get('loc', '?')))
+    if not aggs:
+        ctx.missing(rid, 'construction of persistence::WalWriter with an error_handler field')
+        return
+    ctx.inst(rid, 'persistence::WalWriter', 'error_handler is set at construction only', not late,
+             '; '.join(late[:3]) if late else 'built in %s; no later assignment or mutable borrow of the field' % sorted(set(b.short for b, _, _ in aggs)))
+
+    def callers_of_body(b):
+        sid = strip_generics(b.id)
+        return [c for c in prog.all_calls() if c.callee == sid]
+
+    decided = []          # (body, ok, text, via)
+    followed = set()
+
+    def follow(b, op, via):
+        of = flow.Origin(b, max_depth=24)
+        for alt in flow.top_alternatives(of.of_operand(op)):
+            if alt[0] == 'agg' and alt[1].endswith('Option::Some'):
+                decided.append((b, True, flow.render(alt)[:110], via))
+            elif alt[0] == 'arg' and b.kind in ('Fn', 'AssocFn'):
+                if (b.id, alt[1]) in followed:
+                    continue
+                followed.add((b.id, alt[1]))
+                for c in callers_of_body(b):
+                    if alt[1] - 1 < len(c.args):
+                        follow(c.body, c.args[alt[1] - 1], [b.short] + via)
+            else:
+                decided.append((b, False, flow.render(alt)[:110], via))
+
+    for b, i, op in aggs:
+        follow(b, op, [])
+    n_some = 0
+    per_fn = {}
+    for b, ok, text, via in decided:
+        fn = b.short.split('::{')[0]
+        k = per_fn[fn] = per_fn.get(fn, 0) + 1
+        if ok:
+            n_some += 1
+            ctx.inst(rid, fn, 'log writer #%d is created with an error handler' % (k - 1), True, 'error_handler = %s%s' % (text, (' (through %s)' % ' ← '.join(via)) if via else ''))
+            continue
+        # the function decides "no handler": tolerated for a constructor nobody calls; otherwise the functions that obtain their writer from it are named
+        users, work, seen_b = [], [b], set()
+        returns_writer = lambda x: 'persistence::WalWriter' in x.locals[0]
+        while work:
+            x = work.pop()
+            if x.id in seen_b:
+                continue
+            seen_b.add(x.id)
+            if not returns_writer(x):
+                users.append(x)
+                continue
+            for c in callers_of_body(x):
+                work.append(c.body)
+        if not users:
+            ctx.inst(rid, fn, 'handler-less constructor has no caller in the shipped crates', True, 'passes %s as error_handler; callers: none' % text)
+        for u in users:
+            ctx.inst(rid, u.short.split('::{')[0], 'log writer is created with an error handler', False,
+                     '%s %s error_handler = %s: append / append_batch of that writer take the plain append_internal arm — no truncate back to the stable offset when a '
+                     'write or fsync fails, no retry, no breaker (a torn frame swallows the next acknowledged entry on replay; a complete frame whose fsync failed is replayed)'
+                     % (u.short.split('::{')[0], ('obtains its WalWriter from %s, which sets' % b.short) if u is not b else 'creates its WalWriter with', text))
+    ctx.floor(rid, 'construction sites that install Some(handler)', n_some, 3, 'with_persistence, recovery, rotation')
 
 
 def run(ctx, prog):
@@ -429,6 +519,41 @@ def run(ctx, prog):
     eff8.define('manifest_save', 'Manifest::save')
     eff8.define('wal_create', 'WalWriter::create_with_error_handler', 'WalWriter::create')
     _C01.rotation_publish_order(ctx, prog, eff8, 'C03.R8')
+
+    # ------------------------------------------------------------------ R9 the writer in use is the one that truncates on failure
+    ctx.rule('C03.R9', 'R4 decides the shape of the Some(handler) arm of WalWriter::append / append_batch (truncate back to the stable offset, then Err). The None arm is a plain '
+                       'append_internal: when it fails, a torn frame (or a complete frame whose fsync failed) stays in the log — the next acknowledged entry is swallowed by it on replay, or the '
+                       'failed mutation is replayed. So that arm must not be the one the backend runs: WalWriter.error_handler is given at construction only, and at every construction '
+                       'site in the shipped crates its value originates from Option::Some(..) (followed through constructor parameters to the callers); a handler-less constructor has no caller')
+    writer_handlers(ctx, prog, 'C03.R9')
+
+    # ------------------------------------------------------------------ R10 nothing fails after the apply
+    ctx.rule('C03.R10', 'committed means acknowledged: once a backend mutator has begun its in-memory apply (exclusive doc_store acquisition; by R6 the log entry is durable then) no Err return is '
+                        'reachable, except across the failing edge of add_vector in insert, whose region R3 decides (compensated or flagged, store untouched). What runs after the apply (snapshot '
+                        'trigger, rotation, bookkeeping) is best effort: its failure must not be reported as the failure of a mutation that is live now and replayed after restart')
+    for name in ('HnswBackend::insert', 'HnswBackend::delete', 'HnswBackend::update_metadata', 'HnswBackend::batch_delete'):
+        f = ctx.body('C03.R10', name)
+        if f is None:
+            continue
+        applies = sorted(bb for bb, a in lm6.body_acqs.get(f.id, {}).items() if a.cls == 'HnswBackend.doc_store' and a.mode in ('W', 'U'))
+        if not applies:
+            ctx.missing('C03.R10', '%s: exclusive doc_store acquisition (the in-memory apply)' % name)
+            continue
+        index_fail = []
+        for c in f.calls_to('HnswVectorIndex::add_vector'):
+            index_fail += flow.outcome_edges(f, c)[1] or []
+        errs10 = flow.err_blocks(f)
+        after = f.reach(applies, avoid_edges=index_fail)
+        bad10 = sorted(after & errs10)
+        what10 = ''
+        if bad10:
+            c10 = f.call_at(bad10[0])
+            src10 = flow.render(flow.Origin(f).of_operand(c10.args[0]))[:140] if c10 is not None and c10.args else 'an explicit Err value'
+            what10 = 'Err return at %s is reachable after the in-memory apply at %s: it propagates %s — the mutation is applied and logged, yet the caller is told it failed' % (
+                f.loc_of(bad10[0]), f.loc_of(applies[0]), src10)
+        ctx.inst('C03.R10', f.short, 'no failure is reported once the in-memory apply has begun', not bad10,
+                 what10 or 'apply at %s; %d blocks behind it, none puts an Err into the return place%s' % (
+                     [f.loc_of(a_) for a_ in applies][:2], len(after), ' (failing edge of add_vector excluded: R3)' if index_fail else ''))
 
     # ------------------------------------------------------------------ R5 single funnel
     ctx.rule('C03.R5', 'who-may-write: only HnswBackend::insert pushes to the document store vectors outside constructors / '
